@@ -276,6 +276,32 @@ func nilOrigin(v ssa.Value, depth int) bool {
 	return false
 }
 
+// mulOverflow: integers are mathematical in the conditions; a unit conversion (a 64-bit signed value times a constant of at
+// least a thousand - seconds to nanoseconds and the like) is where that assumption is most easily false, so it carries
+// the side condition that the product fits in 64 bits.
+func (ex *Exec) mulOverflow(f *frame, st *State, x *ssa.BinOp, a, b Term) {
+	bt, ok := x.Type().Underlying().(*types.Basic)
+	if !ok || (bt.Kind() != types.Int && bt.Kind() != types.Int64) {
+		return
+	}
+	big := func(v ssa.Value) bool {
+		c, ok := v.(*ssa.Const)
+		if !ok || c.Value == nil {
+			return false
+		}
+		k, ok := constInt(c)
+		return ok && (k >= 1000 || k <= -1000)
+	}
+	_, xc := x.X.(*ssa.Const)
+	_, yc := x.Y.(*ssa.Const)
+	if xc == yc || !(big(x.X) || big(x.Y)) {
+		return
+	}
+	p := app(SInt, "*", a, b)
+	fits := and(app(SBool, "<=", Term{"(- 9223372036854775808)", SInt}, p), app(SBool, "<=", p, Term{"9223372036854775807", SInt}))
+	ex.oblige(f, st, "overflow", ex.V.srcText(x, x.Pos()), "", x.Pos(), fits, "the product of a unit conversion fits in 64 bits (integers are mathematical in the other conditions)")
+}
+
 func (ex *Exec) binop(f *frame, st *State, x *ssa.BinOp) Term {
 	sc := ex.sc
 	a, b := f.val(x.X), f.val(x.Y)
@@ -290,6 +316,9 @@ func (ex *Exec) binop(f *frame, st *State, x *ssa.BinOp) Term {
 	case token.SUB:
 		return app(s, "-", a, b)
 	case token.MUL:
+		if s == SInt && f.sweepOn() {
+			ex.mulOverflow(f, st, x, a, b)
+		}
 		return app(s, "*", a, b)
 	case token.QUO:
 		if s == SReal {
